@@ -2271,9 +2271,10 @@ fn gen_c17(rng: &mut Rng, ops: &mut Vec<String>, stats: &mut Stats) {
         let base = 500 + rng.range(0, 50) * 20;
         for i in 0..lead_n + rival_n {
             ops.push(format!("sest A k{}:1:4:0 = o", base + i));
-            ops.push(format!("sresp A #p ok pong +0 {}", if i < lead_n { lead4 } else { rival4 }));
+            // the rival's voters come first: the leader is blocked from the moment it qualifies
+            ops.push(format!("sresp A #p ok pong +0 {}", if i < rival_n { rival4 } else { lead4 }));
         }
-        let mover = base + lead_n + rng.below(rival_n);
+        let mover = base + rng.below(rival_n);
         ops.push(format!("srm A k{}", mover));
         ops.push(format!("sest A k{}:1:4:0 = o", mover));
         ops.push(format!("sresp A #p ok pong +0 {}", third4));
